@@ -285,6 +285,8 @@ type batchResult struct {
 	Samples    []*sim.RunResult
 	Recycled   int // worker processes replaced because of their memory
 	MaxSysMB   int
+	Seed       uint64
+	Tier       string
 }
 
 func runBatch(b *built, prop, tier string, seed uint64, avoid []string, cfg tierCfg, name string) *batchResult {
@@ -297,7 +299,7 @@ func runBatch(b *built, prop, tier string, seed uint64, avoid []string, cfg tier
 			nw = n
 		}
 	}
-	br := &batchResult{Name: name, Avoid: avoid, Distinct: map[uint64]bool{}, DistinctSc: map[uint64]bool{}, Faults: map[string]int{}, Probes: map[string]int{}, Strategies: map[string]int{}, Triggers: map[string]int{}}
+	br := &batchResult{Name: name, Avoid: avoid, Seed: seed, Tier: tier, Distinct: map[uint64]bool{}, DistinctSc: map[uint64]bool{}, Faults: map[string]int{}, Probes: map[string]int{}, Strategies: map[string]int{}, Triggers: map[string]int{}}
 	start := time.Now()
 	var mu sync.Mutex
 	var wg sync.WaitGroup
@@ -529,6 +531,23 @@ func cmdCheck(args []string) int {
 				}
 				if pick == nil || len(r.Tape.Gen)+len(r.Tape.Run) < len(pick.Tape.Gen)+len(pick.Tape.Run) {
 					pick = r
+				}
+			}
+			if pick == nil && len(rs) > 0 {
+				// only the first few violating runs of a worker keep their tape: run this one again
+				// (same seed, same index: same run) to get it
+				a := sim.WorkerArgs{Prop: prop, Seed: br.Seed, From: rs[0].Run, To: rs[0].Run + 1, Stride: 1, Mode: "explore", Tier: br.Tier, Avoid: br.Avoid,
+					Out: filepath.Join(b.scratch, fmt.Sprintf("rerun-%s-%d.json", br.Name, rs[0].Run)), WallS: 120, Samples: 0, MaxViol: 6}
+				if out, _, err := runWorker(b, a, 5*time.Minute); err == nil && out != nil {
+					for _, r := range out.Violating {
+						if r.Tape != nil {
+							for _, v := range r.Violations {
+								if v.Prop+":"+v.Class == sig {
+									pick = r
+								}
+							}
+						}
+					}
 				}
 			}
 			if pick == nil {
